@@ -103,11 +103,11 @@ class Script:
         body.append(f'logcall("{side}", "{prt.name}", "{ev.name}", {args});')
         for fname, fdir, ftype in ev.formals:
             if fdir != 'in' and ev.direction == 'in':
-                body.append(f'{{ int w = nextval(); {fname} = {_wr(ftype)}; std::cout << "WROTE {fname}=" << w << std::endl; }}')
+                body.append(f'{{ int vf_w__ = nextval(); {fname} = {_wr(ftype)}; std::cout << "WROTE {fname}=" << vf_w__ << std::endl; }}')
         if ev.reply != 'void':
             itf_t = f'{_ns(self.m)}{prt.itf}'
-            body.append(f'{{ int r = {reply_expr or "nextreply()"}; std::cout << "REPLY " << r << std::endl; '
-                        f'return static_cast<{itf_t}::Res>(r); }}')
+            body.append(f'{{ int vf_r__ = {reply_expr or "nextreply()"}; std::cout << "REPLY " << vf_r__ << std::endl; '
+                        f'return static_cast<{itf_t}::Res>(vf_r__); }}')
         return f'[&]({_sig_params(ev)}) {{ ' + ' '.join(body) + ' }'
 
     def bind_all(self, clients: List[str]):
@@ -182,10 +182,10 @@ class Script:
 
 def _wr(ftype: str) -> str:
     if ftype == 'TInt':
-        return 'w'
+        return 'vf_w__'
     if ftype == 'TBlob':
-        return 'Blob{w}'
-    return 'std::string("s") + std::to_string(w)'
+        return 'Blob{vf_w__}'
+    return 'std::string("s") + std::to_string(vf_w__)'
 
 
 def compile_and_run(prog_dir: str, info: Dict, source: str, name: str = 'driver') -> Tuple[int, str]:
